@@ -449,6 +449,28 @@ def r5(ctx, sp):
             else:
                 rep.ok('C20.R5', 'scan.l:%d <%s> %r leaves linenum as the directive set it' % (r.line, scs, r.pat))
             continue
+        # a token that always contains a newline must be counted on EVERY path of its action, not on some
+        if nl and incs and not pushes_back and not (r.scs and set(r.scs) <= set(R5_EXCEPT_STATES)):
+            nonl = ('star', ('set', lex.ALL - frozenset([10])))
+            always_nl = lex.intersect_witness(a['head'], nonl) is None
+            if always_nl:
+                pe = PathEval(prog, fs, stop)
+                try: paths = pe.run(b)
+                except pe.Unknown: paths = None
+                if paths:
+                    def counts(tr):
+                        return any((t[0] == 'store' and t[1] == '@linenum') or (t[0] == 'call' and t[1] in counters) for t in tr)
+                    def errs(tr, how):
+                        return how == 'fatal' or any(t[0] == 'call' and t[1] in ('synerr', 'format_synerr', 'flexfatal', 'flexerror', 'lerr') for t in tr)
+                    missing = [tr for tr, how in paths if not counts(tr) and not errs(tr, how)]
+                    n += 1
+                    if missing:
+                        rep.fail('C20.R5', key + ':newline-not-counted-on-every-path', 'scan.l:%d <%s>' % (r.line, scs),
+                                 'every token of rule %r contains a newline, but %d of the %d paths through its action leave linenum unchanged (the increment depends on state left by earlier input): '
+                                 'on those paths every #line directive emitted afterwards is one too low' % (r.pat, len(missing), len(paths)),
+                                 replay_input='an indented code line, then a %{ %} block: later #line numbers are one too small')
+                        continue
+                    rep.ok('C20.R5', 'scan.l:%d <%s> %r: linenum advanced on all %d paths' % (r.line, scs, r.pat, len(paths)))
         if nl and not incs:
             if pushes_back:
                 rep.ok('C20.R5', 'scan.l:%d <%s> %r may match a newline and pushes text back to be re-scanned' % (r.line, scs, r.pat)); continue
